@@ -132,7 +132,7 @@ def run(ctx):
 
     # the stall-resume scenarios must really have blocked the writer (otherwise they say nothing); judged only when
     # nothing was rejected (a changed relay may never block: that shows in the identity, not here)
-    nstall = [s for s in scns if s["kind"] in ("stall", "stallclose")]
+    nstall = [s for s in scns if s["kind"] in ("stall", "stallclose", "stallfin")]
     if not ctx.violations:
         if len(stalls) != len(nstall):
             raise Machinery("dead driver: %d stall records for %d stall-resume scenarios" % (len(stalls), len(nstall)))
